@@ -2,8 +2,9 @@
 # offline build of the verification harness (and the cli tools used by C19)
 set -e
 export CARGO_NET_OFFLINE=true
-cd /verif/harness
+HERE="$(cd "$(dirname "${BASH_SOURCE[0]}")" && pwd)"
+cd "$HERE/harness"
 cargo build --offline 2>&1 | tail -n 3
-cargo build --offline --manifest-path /repo/Cargo.toml --features cli --bins --target-dir /verif/harness/target/cli 2>&1 | tail -n 3
-mkdir -p /verif/work /verif/evidence
+cargo build --offline --manifest-path /repo/Cargo.toml --features cli --bins --target-dir "$HERE/harness/target/cli" 2>&1 | tail -n 3
+mkdir -p "$HERE/work" "$HERE/evidence"
 echo setup-ok
